@@ -616,3 +616,26 @@ func isZeroOrg(o *Org) bool {
 	}
 	return false
 }
+
+
+// sessionValuesNonNil: every Store into the sessions map stores a value that
+// is not nil (a fresh object, or an object known non-nil): a nil test of a
+// value taken from that map is dead code.
+func (t *Tracker) sessionValuesNonNil() bool {
+	n := 0
+	for _, f := range t.Of("mapop") {
+		if f.Map != t.SessMap || f.Method != "Store" {
+			continue
+		}
+		n++
+		if f.Val == nil {
+			return false
+		}
+		for _, a := range f.Val.Alts() {
+			if nilKindOrg(f.R, a, f.Ins) != NonNil {
+				return false
+			}
+		}
+	}
+	return n > 0
+}
